@@ -93,6 +93,9 @@ pub fn run(a: &Args) -> Report {
             prog.push(comb_decl);
         }
         let mut base = EGraph::new(a.threads);
+        if a.get("naive") == Some("1") {
+            base.seminaive = false;
+        }
         let mut ok = true;
         for c in &prog {
             if let Outcome::Panic(p) = run::run(&mut base, c) {
@@ -168,7 +171,38 @@ pub fn run(a: &Args) -> Report {
         );
         law("combined_eq_union", &["(run comb 1)".to_string()], &["(run all 1)".to_string()], &mut rep);
         law("combined_eq_union_3", &["(run comb 3)".to_string()], &["(run all 3)".to_string()], &mut rep);
+        // termination pre-check for the saturate laws, by stepping: the iteration that changes
+        // nothing must report updated=false, otherwise (saturate ..) cannot stop
+        let mut saturate_terminates = true;
         if all_safe {
+            let mut e = base.clone();
+            for _ in 0..80 {
+                let before = canon(&e);
+                match sched_ok(&mut e, &format!("(run-schedule (seq (run {r0}) (run {r1})))")) {
+                    Ok(updated) => {
+                        let changed = canon(&e) != before;
+                        rep.count("termination_precheck_steps", 1);
+                        if !changed {
+                            if updated {
+                                saturate_terminates = false;
+                                let replay = format!("{progtext}\n(run-schedule (seq (run {r0}) (run {r1})))   ; repeated until the dump stops changing");
+                                rep.violation(
+                                    &format!("C10:noop-progress:{}", dump::fnv(&replay)),
+                                    "an execution of s that changes nothing reports updated=true, so (saturate s) never stops",
+                                    &replay,
+                                );
+                            }
+                            break;
+                        }
+                    }
+                    Err(_) => {
+                        saturate_terminates = false;
+                        break;
+                    }
+                }
+            }
+        }
+        if all_safe && saturate_terminates {
             law(
                 "saturate_idem",
                 &[format!("(run-schedule (saturate (saturate (run {r0}))))")],
